@@ -60,13 +60,37 @@ Lemma directory_dropped_refuted :
   exists t p subs, recorded t p subs = Some [] /\ std_glob t p subs = Some [[97; 47]].
 Proof. exists [([97], Dir [])], [97], []. vm_compute. split; reflexivity. Qed.
 
-(* D5c: `f/**` where f is a regular file: glob yields "f/" (the recursive component yields its own
-   directory unchecked), the regex f/.* accepts it, and a path that does not exist is recorded. *)
-Lemma nonexistent_directory_recorded_refuted :
+(* D5c (fixed in 203e57e).  `f/**` where f is a regular file: glob still yields "f/" (the recursive
+   component yields its own directory unchecked) and the regex f/.* accepts it; glob() now skips a
+   result that ends with a separator but is no directory, so nothing is recorded. *)
+Lemma nonexistent_directory_filtered :
+  exists t p subs gp path,
+    conv_glob p subs = COk gp /\ In path (glob_paths_raw t gp) /\ mem_str path (all_paths t) = false
+    /\ recorded t p subs = Some [] /\ accepted_existing t p subs = Some [].
+Proof.
+  exists [([102], File)], [102;47;42;42], [], [102;47;42;42], [102;47]. vm_compute.
+  repeat split. left. reflexivity.
+Qed.
+
+(* what the filter guarantees, for every candidate: one that ends with a separator is a directory *)
+Lemma kept_slash_is_directory :
+  forall pn, kept pn = true -> ends_slash (canon pn) = true -> is_dir_opt (snd pn) = true.
+Proof.
+  intros [path nd]. unfold kept, canon. cbn [fst snd]. destruct (is_dir_opt nd); [reflexivity|].
+  cbn. intros H1 H2. rewrite H2 in H1. discriminate.
+Qed.
+
+(* the variant before the fix (no filter): the non-existing path "f/" was recorded *)
+Definition recorded_unfiltered (t : list entry) (p : str) (subs : subs_t) : option (list str) :=
+  match ng_make p subs, conv_glob p subs with
+  | COk g, COk gp => Some (files (scan key_eqb (ng_mv g) (glob_paths_raw t gp)))
+  | _, _ => None
+  end.
+
+Lemma nonexistent_directory_recorded_before_fix :
   exists t p subs path,
-    recorded t p subs = Some [path] /\ mem_str path (all_paths t) = false
-    /\ accepted_existing t p subs = Some [].
-Proof. exists [([102], File)], [102;47;42;42], [], [102;47]. vm_compute. repeat split. Qed.
+    recorded_unfiltered t p subs = Some [path] /\ mem_str path (all_paths t) = false.
+Proof. exists [([102], File)], [102;47;42;42], [], [102;47]. vm_compute. split; reflexivity. Qed.
 
 (* D5d: `d/*${*n}`: the last component consists of two wildcards that may both be empty; the
    trailing rule only looks at the part before the last one, so the regex accepts "d/". *)
@@ -76,12 +100,28 @@ Lemma empty_component_accepted_refuted :
     /\ nglob_ref false p subs path = Some false.
 Proof. exists [([100], Dir [])], [100;47;42;36;123;42;110;125], [], [100;47]. vm_compute. repeat split. Qed.
 
-(* D5e: `d/**` and a file whose name contains a newline: `.` does not match "\n". *)
-Lemma newline_not_matched_by_recursive_wildcard_refuted :
+(* D5e (fixed in 5ed14b3).  `d/**` and a file whose name contains a newline: every compile site now
+   passes re.DOTALL, so the recorded set is what the standard glob returns. *)
+Lemma recursive_wildcard_matches_newline :
   exists t p subs path,
-    std_glob t p subs = Some [[100;47]; path] /\ recorded t p subs = Some [[100;47]]
+    std_glob t p subs = Some [[100;47]; path] /\ recorded t p subs = Some [[100;47]; path]
     /\ nglob_ref false p subs path = Some true.
 Proof. exists [([100], Dir [([110;10;108], File)])], [100;47;42;42], [], [100;47;110;10;108]. vm_compute. repeat split. Qed.
+
+(* `.*` compiled with DOTALL accepts every string *)
+Lemma dstar_accepts_all : forall s, accepted re_dstar s.
+Proof.
+  intros s. exists []. unfold re_dstar, dotall. induction s as [|c s IH]; [constructor|].
+  change (c :: s) with ([c] ++ s). econstructor; [|exact IH]. constructor. left. reflexivity.
+Qed.
+
+(* the variant before the fix: the same regex text without DOTALL rejects the path *)
+Lemma newline_not_matched_before_fix :
+  let old := rcat [RStr [100;47]; RStar (RAny false)] in
+  let new := rcat [RStr [100;47]; RStar (RAny true)] in
+  pr old = pr new /\ conv_regex [100;47;42;42] [] = COk [RStr [100;47]; RStar (RAny true)]
+  /\ accepts old [100;47;110;10;108] = false /\ accepts new [100;47;110;10;108] = true.
+Proof. vm_compute. repeat split. Qed.
 
 (* D5d, second trigger: `d/**/*`: the part before the last wildcard is (?:.*/|), which does not
    "end with a separator" as text, so the last `*` may stay empty and "d/" is accepted. *)
